@@ -39,4 +39,7 @@ VARIANTS = [
     V("N-center-half-sum", O, "        \"center\": (start_time + end_time) / 2,\n", "        \"center\": start_time / 2 + end_time / 2,\n", None),
     V("N-features-via-compute-bounds-order", F, "        Feature(term=terms.duration, value=end_time - start_time),\n        Feature(term=terms.low_freq, value=low_freq),\n        Feature(term=terms.high_freq, value=high_freq),\n        Feature(term=terms.bandwidth, value=high_freq - low_freq),\n    ]\n\n\ndef _compute_point_features",
       "        Feature(term=terms.low_freq, value=low_freq),\n        Feature(term=terms.duration, value=end_time - start_time),\n        Feature(term=terms.bandwidth, value=high_freq - low_freq),\n        Feature(term=terms.high_freq, value=high_freq),\n    ]\n\n\ndef _compute_point_features", None),
+    # wave 7
+    V("multilinestring-vectorised-constructor", "src/soundevent/geometry/conversion.py", "    return geometry.MultiLineString(geom.coordinates)", "    return shapely.multilinestrings(geom.coordinates)", "R05.2"),
+    V("N-box-default-spelled-out", "src/soundevent/geometry/conversion.py", "        end_time,\n        high_freq,\n    )", "        end_time,\n        high_freq,\n        ccw=True,\n    )", None),
 ]
